@@ -710,10 +710,13 @@ def run(ctx: Ctx) -> int:
     threads = [threading.Thread(target=tlc_cases, args=(ctx, "enum", 5, docstates, results), kwargs={"coverage": bool(os.environ.get("VERIF_COVERAGE"))}),
                threading.Thread(target=tlc_cases, args=(ctx, "members", 4, docstates, results)),
                threading.Thread(target=tlc_cases, args=(ctx, "graph", 3, docstates, results), kwargs={"workers": 1}),
-               threading.Thread(target=tlc_cases, args=(ctx, "late", 3, docstates, results), kwargs={"workers": 2}),
+               # quick: member states {absent, doc} for the one-class-per-module source, thorough: all of them
+               threading.Thread(target=tlc_cases, args=(ctx, "late", 3, ["absent", "doc"] if ctx.quick else docstates, results),
+                                kwargs={"workers": 2}),
                # two TYPE_CHECKING imports: a subclass can be created (and post-processed) before its base
                threading.Thread(target=tlc_cases, args=(ctx, "late", 3, ["absent", "doc"], results),
-                                kwargs={"workers": 2, "key": "late2", "late_backs": "two"})]
+                                kwargs={"workers": 2, "key": "late2", "late_backs": "two",
+                                        "late_orders": "two" if ctx.quick else "all"})]
     # @implementer classes in the docstring-inheritance universe; the last of 5 classes post-processed before its bases
     threads.append(threading.Thread(target=tlc_cases, args=(ctx, "zope", 3, docstates, results), kwargs={"workers": 1}))
     threads.append(threading.Thread(target=tlc_cases, args=(ctx, "split", 5, docstates, results),
@@ -736,11 +739,13 @@ def run(ctx: Ctx) -> int:
     for g in graph:
         g["layout"] = {"kind": "graph"}
     late = sorted(results["late"].printed, key=lambda r: json.dumps([r["bases"], r["member"], r["lay"]]))
-    if len(late) != 10 * len(docstates) ** 3 * 6 * 7:
-        raise MachineryError(f"TLC emitted {len(late)} late cases, expected {10 * len(docstates) ** 3 * 6 * 7}")
+    nlate = 10 * (2 if ctx.quick else len(docstates)) ** 3 * 6 * 7
+    if len(late) != nlate:
+        raise MachineryError(f"TLC emitted {len(late)} late cases, expected {nlate}")
     late2 = sorted(results["late2"].printed, key=lambda r: json.dumps([r["bases"], r["member"], r["lay"]]))
-    if len(late2) != 10 * 8 * 6 * 18:
-        raise MachineryError(f"TLC emitted {len(late2)} late (two imports) cases, expected {10 * 8 * 6 * 18}")
+    nlate2 = 10 * 8 * (2 if ctx.quick else 6) * 18
+    if len(late2) != nlate2:
+        raise MachineryError(f"TLC emitted {len(late2)} late (two imports) cases, expected {nlate2}")
     late += late2
     if "late4" in results:
         late4 = sorted(results["late4"].printed, key=lambda r: json.dumps([r["bases"], r["member"], r["lay"]]))
@@ -797,8 +802,9 @@ def run(ctx: Ctx) -> int:
     # class used as a base), which pydoctor evaluates during analysis, before any MRO exists
     # quick: each case gets ONE of the two early-lookup variants (alternating in the sorted order), thorough: both
     pick = (lambda lst, par: [r for i, r in enumerate(lst) if i % 2 == par]) if ctx.quick else (lambda lst, par: lst)
-    m_alias = [dict(r, early="alias") for r in pick(members, 0)]
-    m_nested = [dict(r, early="nested") for r in pick(members, 1)]
+    pick4 = (lambda lst, par: [r for i, r in enumerate(lst) if i % 4 == par]) if ctx.quick else (lambda lst, par: lst)
+    m_alias = [dict(r, early="alias") for r in pick4(members, 0)]
+    m_nested = [dict(r, early="nested") for r in pick4(members, 2)]
     l_alias = [dict(r, early="alias") for r in pick(late, 0)]
     l_nested = [dict(r, early="nested") for r in pick(late, 1)]
     all_cases = enum + members + graph + file_cases + file_graphs + m_alias + m_nested + l_alias + l_nested + zope + split
